@@ -147,6 +147,7 @@ def build_world(tape, tier):
     W.add("cnr", objs["cnr_clean"], "initial", "cnr_clean")
     for name, kind in (("ref_nomask", "ref"), ("ref_alt", "ref"), ("tcov_b", "tcov"), ("acov_b", "acov"),
                        ("cnr_mirror", "cnr"), ("cnr_chr1", "cnr"), ("varr_empty", "varr"),
+                       ("varr_nozyg", "varr"),
                        ("baits_chr1", "baits")):
         W.add(kind, objs[name], "initial", name)
     if tape.chance(1, 2, "w.arms_table"):
@@ -1127,7 +1128,8 @@ def _choose_write(W, tape, writes):
     if prev and tape.chance(2, 3, "wr.samepath"):
         name = prev[tape.draw(len(prev), "wr.which")]
     else:
-        name = tape.choice(["out.cnn", "sub/dir/out.cnn", "other.cns"], "wr.path")
+        name = tape.choice(["out.cnn", "sub/dir/out.cnn", "other.cns", "dbl//out.cnn", "./dot.cnn"],
+                           "wr.path")
     prepop = tape.choice(PREPOP, "wr.prepop")
     # a third of the write steps go through a command that promises not to overwrite
     # (`cnvkit.py reference ... -o PATH`: ensure_path + tabio.write inside commands.py)
@@ -1187,12 +1189,14 @@ def _do_write_step_inner(W, ents, params, writes, ctx, simfs, D):
 
     root = writes.root
     name = params["name"]
-    path = os.path.join(root, name)
+    rel = os.path.normpath(name)  # how the file appears in a directory snapshot
+    path = root + "/" + name      # the path shape handed to the SUT is kept as drawn
     if name not in writes.prepop_done:
         writes.prepop_done.add(name)
-        os.makedirs(os.path.dirname(path), exist_ok=True) if params["prepop"] != "none" else None
+        pdir = os.path.dirname(os.path.join(root, rel))
+        os.makedirs(pdir, exist_ok=True) if params["prepop"] != "none" else None
         if params["prepop"] != "none":
-            prepopulate(os.path.dirname(path), os.path.basename(name), params["prepop"])
+            prepopulate(pdir, os.path.basename(rel), params["prepop"])
     first = simfs.snapshot_dir(root)
     argv = None
     if params.get("relative"):
@@ -1223,8 +1227,8 @@ def _do_write_step_inner(W, ents, params, writes, ctx, simfs, D):
             raise Violation("W1", "C10/W1/raises", f"write to {name} "
                             f"{'via cnvkit.py reference -o ' if argv else ''}raised {type(exc).__name__}: {exc}")
         after = simfs.snapshot_dir(root)
-        msg = check_w1(before, after, name)
-        if not msg and _k and after.get(name) != before.get(name):
+        msg = check_w1(before, after, rel)
+        if not msg and _k and after.get(rel) != before.get(rel):
             # the same object written again: formatting is a pure function of the table
             msg = (f"write #{_k + 1} of the same object produced other bytes than write #{_k} "
                    f"({len(after.get(name, b''))} vs {len(before.get(name, b''))} bytes)")
@@ -1241,8 +1245,8 @@ def _do_write_step_inner(W, ents, params, writes, ctx, simfs, D):
     if len(after) != len(first) + params.get("times", 1):
         raise Violation("W1", "C10/W1/count", f"{params.get('times', 1)} writes to {name} left "
                                               f"{len(after) - len(first)} more files")
-    suffixes = sorted(int(n[len(name) + 1:]) for n in after
-                      if n.startswith(name + ".") and n[len(name) + 1:].isdigit())
+    suffixes = sorted(int(n[len(rel) + 1:]) for n in after
+                      if n.startswith(rel + ".") and n[len(rel) + 1:].isdigit())
     if suffixes and suffixes[-1] > 1:
         ctx.probe("write.suffix_gt_1")
     if suffixes and suffixes != list(range(1, len(suffixes) + 1)):
